@@ -327,6 +327,32 @@ def r40(ctx: Ctx) -> RuleReport:
         return rep
     rep.ok(f'{fi.fq}: loop over all of graph.triples', fi.loc(loop))
     head = cfg.node_of(loop)
+    # every normal return went through that loop, unless the graph has no triples at all
+    empty = {(f'len({gp}.triples) == 0', True), (f'not {gp}.triples', True), (f'{gp}.triples', False), (f'len({gp}.triples)', False),
+             (f'len({gp}.triples) > 0', False), (f'len({gp}.triples) != 0', False), (f'len({gp}.triples) < 1', True), (f'0 == len({gp}.triples)', True)}
+    for nm, vals in ctx.cg.local_assigns(fi).items():
+        if len(vals) == 1 and isinstance(vals[0], ast.AST) and norm(vals[0]) == f'{gp}.triples':
+            empty |= {(f'len({nm}) == 0', True), (f'not {nm}', True), (nm, False), (f'len({nm}) > 0', False), (f'len({nm})', False)}
+    seen, stack, skipped = set(), [(cfg.entry, [])], None
+    while stack:
+        n, path = stack.pop()
+        if n in seen or n == head:
+            continue
+        seen.add(n)
+        if n == cfg.exit:
+            skipped = path
+            break
+        node = cfg.nodes[n]
+        for m, lab in cfg.succ[n]:
+            if lab == 'exc' or m == cfg.rexit:
+                continue
+            if node.kind == 'cond' and (norm(node.ast), lab == 'T') in empty:
+                continue
+            stack.append((m, path + ([f'{norm(node.ast)[:50]} is {lab}'] if node.kind == 'cond' else [])))
+    rep.add(f'{fi.fq}: a report is only returned after the roles of all triples were tested (or for a graph without triples)', fi.loc(loop),
+            'violation' if skipped is not None else 'ok',
+            (f'Model.errors can return without having looked at the roles ({"; ".join(skipped) or "unconditionally"}): a graph with that problem and an '
+             f'undefined role gets no "invalid role" entry, although the role is not defined by the model') if skipped is not None else '')
     tv = loop.target.id if isinstance(loop.target, ast.Name) else None
     role_names = set()
     if tv:
